@@ -1207,7 +1207,13 @@ def calc_whitening_matrix(cov_matrix: np.ndarray) -> np.ndarray:
     --------
     calc_decorrelation_matrix
     """
-    L, V = np.linalg.eig(cov_matrix)
+    # cov_matrix is Hermitian: eigh returns real eigenvalues (in ascending
+    # order) and orthonormal eigenvectors also when an eigenvalue is
+    # repeated. np.linalg.eig does not, and then W^H R W is not the identity.
+    L, V = np.linalg.eigh(cov_matrix)
+    # A zero eigenvalue of a semi-definite matrix can be computed as zero or
+    # as a tiny negative number: keep the filter finite in that case
+    L = np.maximum(L, np.finfo(float).eps * L[-1])
     W = np.dot(V, np.diag(1. / (L**0.5)))
     return W
 
